@@ -202,7 +202,7 @@ Section Plain.
     | DTrue => Ok (IBool true, r)
     | DF32 => do (x, r') <- rd_nk 4 r ;; Ok (IF64 (f32_to_f64 (be_get x)), r')
     | DF64 => do (x, r') <- rd_nk 8 r ;; Ok (IF64 (be_get x), r')
-    | DUint k => do (x, r') <- rd_nk k r ;; Ok (mkuint D (be_get x), r')
+    | DUint k => do (x, r') <- rd_nk k r ;; do it <- mkuint_r D (be_get x) ;; Ok (it, r')
     | DInt k => do (x, r') <- rd_nk k r ;; Ok (IInt (signed (8 * N.of_nat k) (be_get x)), r')
     | DFixNum => Ok (IInt (signed 8 bd), r)
     | DStr w =>
@@ -399,6 +399,8 @@ Section Total.
     destruct (classify bd);
       try (apply nl_ok; lia); try apply nl_err;
       try (apply nl_bind; [apply nl_rd_nk|]; intros a b' _ Hl; apply nl_ok; lia).
+    - apply nl_bind; [apply nl_rd_nk|]. intros a b' _ Hl.
+      unfold mkuint_r. destruct (_ && _); cbn [bind]; [apply nl_err|apply nl_ok; lia].
     - apply nl_bind; [apply nl_rd_len|]. intros n r1 _ Hl.
       apply nl_bind; [apply nl_rd_readx|]. intros s r2 _ Hl2. apply nl_ok; lia.
     - apply nl_bind; [apply nl_rd_len|]. intros n r1 _ Hl.
@@ -837,6 +839,10 @@ Section DepthVal.
         destruct (classify bd);
           try (inversion H; subst; cbn [depth]; lia);
           try (destruct (rd_nk _ b) as [[x r']|e|]; cbn [bind] in H; inversion H; subst; unfold mkuint; try destruct (d_signedinteger D); cbn [depth]; lia).
+        * destruct (rd_nk k b) as [[x r']|e|]; cbn [bind] in H; try discriminate.
+          unfold mkuint_r, mkuint in H.
+          destruct (d_signedinteger D && (2 ^ 63 <=? be_get x)); cbn [bind] in H; try discriminate.
+          destruct (d_signedinteger D); okinv H; subst i; cbn [depth]; lia.
         * destruct (rd_len bFixStrMin bd w b) as [[n r1]|e|]; cbn [bind] in H; try discriminate.
           destruct (rd_readx cap n r1) as [[s r2]|e|]; cbn [bind] in H; inversion H; subst.
           unfold mkraw. destruct (_ || _); cbn [depth]; lia.
